@@ -1013,6 +1013,48 @@ m("C08", "reply-pause-ignores-limits", IMPL,
   "	response, msgErr := message.ValidationResultResponse(messageType, chst.TransferID(), result, err, result.ForcePause)",
   "C04.7", "revalidation reply says unpaused although the request stays paused", "seeded/C01r2a")
 
+# ---------------- round-2 (second batch) seeded regressions
+m("C08", "failed-pause-message-swallows-pause", EV,
+  "		if err := m.dataTransferNetwork.SendMessage(ctx, chid.Initiator, msg); err != nil {\n			return err\n		}\n	}\n\n	return err\n}\n\n// OnDataQueued",
+  "		if err := m.dataTransferNetwork.SendMessage(ctx, chid.Initiator, msg); err != nil {\n			return m.OnRequestDisconnected(chid, err)\n		}\n	}\n\n	return err\n}\n\n// OnDataQueued",
+  "C08.5", "the crossing report returns nil: the transport is not paused and blocks keep arriving", "seeded/C08r2a")
+m("C08", "limit-below-progress-underflows", MG,
+  "	return vr.DataLimit != 0 && limitFactor >= vr.DataLimit",
+  "	if vr.DataLimit == 0 {\n		return false\n	}\n	remaining := vr.DataLimit - limitFactor\n	return remaining <= 0",
+  "C08.2", "a new limit below the progress made resumes the channel", "seeded/C08r2b")
+m("C11", "self-pause-ignored-on-non-update", EV,
+  "	err := m.resumeOther(chid)\n	if err != nil {\n		return err\n	}\n	chst, err := m.channels.GetByID(context.TODO(), chid)",
+  "	err := m.resumeOther(chid)\n	if err != nil {\n		return err\n	}\n	if !response.IsUpdate() {\n		return nil\n	}\n	chst, err := m.channels.GetByID(context.TODO(), chid)",
+  "C11.5", "the initiator's own pause is overridden when the responder's resume arrives on a non-update response", "seeded/C11r2a")
+m("C11", "resume-skipped-while-initiator-paused", IMPL,
+  "		if chst.ResponderPaused() && !chst.Status().InFinalization() {\n			return m.transport.(datatransfer.PauseableTransport).ResumeChannel",
+  "		if chst.ResponderPaused() && !chst.InitiatorPaused() && !chst.Status().InFinalization() {\n			return m.transport.(datatransfer.PauseableTransport).ResumeChannel",
+  "C04.7", "the responder's transport stays paused for good when it lifts its pause while the initiator is paused", "seeded/C11r2b")
+m("C12", "network-form-not-canonical", TRQ,
+  "	return ipld.EncodeStreaming(w, trq.toIPLD(), dagcbor.Encode)",
+  "	return ipld.EncodeStreaming(w, trq.toIPLD(), dagcbor.EncodeOptions{AllowLinks: true}.Encode)",
+  "C12.2", "request bytes lose the canonical map ordering", "seeded/C12r2b")
+m("C13", "stage-log-nil-guard-dropped", "types.go",
+  "func (cs *ChannelStages) AddLog(stage, msg string) {\n	if cs == nil {\n		return\n	}\n",
+  "func (cs *ChannelStages) AddLog(stage, msg string) {\n",
+  "C13.6", "first event on a migrated channel without a stage log panics", "seeded/C13r2a")
+m("C18", "transfer-id-handed-back", TC,
+  "func (tc *timeCounter) next() uint64 {",
+  "func (tc *timeCounter) release() {\n	atomic.AddUint64(&tc.counter, ^uint64(0))\n}\n\nfunc (tc *timeCounter) next() uint64 {",
+  "C18.1", "an id can be issued twice under concurrent opens", "seeded/C18r2a")
+m("C18", "cache-primed-before-begin", CH,
+  "	chid := datatransfer.ChannelID{Initiator: initiator, Responder: responder, ID: tid}\n	err := c.stateMachines.Begin(",
+  "	chid := datatransfer.ChannelID{Initiator: initiator, Responder: responder, ID: tid}\n	c.progressCache.setDataLimit(chid, 0)\n	err := c.stateMachines.Begin(",
+  "C18.3", "a refused duplicate creation resets the existing channel's in-memory limit", "seeded/C18r2b")
+m("C02", "terminated-restart-refires-final-event", IMPL,
+  "	if channels.IsChannelTerminated(channel.Status()) {\n		return nil\n	}",
+  "	if channels.IsChannelTerminated(channel.Status()) {\n		m.notifier(datatransfer.Event{Code: datatransfer.CleanupComplete, Timestamp: time.Now()}, channel)\n		return nil\n	}",
+  "C02.4", "restarting a terminated channel emits an event", "seeded/C02r2b")
+m("C02", "completed-not-absorbing-in-fsm", CH,
+  "		FinalityStates:  ChannelFinalityStates,",
+  "		FinalityStates:  []fsm.StateKey{datatransfer.Cancelled, datatransfer.Failed},",
+  "C02.1", "the state machine keeps accepting events for Completed channels", "seeded/C02r2a")
+
 # ---------------- neutral variants: behaviour-preserving edits that must NOT be reported
 def n(props, id, file, find, replace, why, more=None, all=False):
     for p in props:
